@@ -24,7 +24,7 @@ DESIGN_REF = "DESIGN.md §4 C03"
 RULE = (
     "(a) Hypothesis histories as in C01 plus makedirs bursts and ext ops on entries that left the tree, x recursive x "
     "normal/full emitter x str/bytes; every event of every drain window is judged.  (b) exhaustive cells: every tree "
-    "state reachable in <= 2 creating ops over names {a,b}, depth 2 (plus an out/ slot holding a file and a tree) x every "
+    "state reachable in <= 2 creating ops over names {a,ab} (prefix related), depth 2 (plus an out/ slot holding a file and a tree) x every "
     "single valid op x recursive/non-recursive x normal/full.  non-trivial: (a) window with a directory op or an ext op; "
     "(b) op acts on a directory with >= 1 descendant or crosses the tree boundary; distinct = digest of the case"
 )
@@ -117,7 +117,7 @@ def hist_cases(draw, tier):
 
 def states():
     """Init op lists reaching every tree state within <= 2 creating ops over {a,b}, depth 2, plus fixed out/ slots."""
-    opts = {"names": ["a", "b"], "depth": 2, "boundary": False}
+    opts = {"names": ["a", "ab"], "depth": 2, "boundary": False}
     out = [[]]
     seen = {()}
     frontier = [[]]
@@ -138,13 +138,15 @@ def states():
         out += nxt
         frontier = nxt
     # a richer state so that directories with descendants occur
-    out.append([["mkdir", "a"], ["mkdir", "a/a"], ["create", "a/b"], ["create", "b"]])
-    slots = [["prebuild", "o1", [], "f"], ["prebuild", "o2", [["a", "f"], ["b", "d"]], "d"]]
+    out.append([["mkdir", "a"], ["mkdir", "a/a"], ["create", "a/ab"], ["create", "ab"]])
+    # sibling directories whose names are prefix related, both with content
+    out.append([["mkdir", "a"], ["create", "a/a"], ["mkdir", "ab"], ["create", "ab/a"]])
+    slots = [["prebuild", "o1", [], "f"], ["prebuild", "o2", [["a", "f"], ["ab", "d"]], "d"]]
     return [init + slots for init in out]
 
 
 def cells():
-    opts = {"names": ["a", "b"], "depth": 2}
+    opts = {"names": ["a", "ab"], "depth": 2}
     for init in states():
         m = fsops.model_after_init(init)
         for op in fsops.candidate_ops(m, opts):
